@@ -87,6 +87,7 @@ def writer_event(dom):
 HOSTILE = {
     "p": "a", "lt": "<", "gt": ">", "amp": "&", "quot": '"', "apos": "'", "sp": " ", "cdend": "]]>", "entity": "&amp;", "comment": "<!-- x -->",
     "lbrace": "{", "rbrace": "}", "dollar": "$", "astral": "\U0001F600", "rtl": "של", "numref": "&#10;", "tag": "<b>x</b>", "pi": "<?x y?>",
+    "zwnj": "\u200c", "rlm": "\u200f", "zwsp": "\u200b",
 }
 
 
